@@ -26,7 +26,9 @@ RULE = (
     "that site after a create run and, with a second script, after a fix+trim run on the tool-written text; no "
     "site may hold a value outside its range. reeval: the hand-written argument evaluates to a different value "
     "on a later evaluation (leaf, nested leaf, length, type, dict key set): a usage error must be raised and the "
-    "site text must not change. pytest: parametrized tests and several tests sharing a module-level site in a "
+    "site text must not change. inner_sites: conditional inner snapshot() calls inside an outer snapshot that is "
+    "evaluated in a loop; after create+fix every inner call holds the value of its own branch, unreached ones are "
+    "untouched. pytest: parametrized tests and several tests sharing a module-level site in a "
     "real session. non-trivial = >= 3 sites, two on one line or one reached through a helper, some site "
     "evaluated >= 2 times with another site's evaluation in between."
 )
@@ -320,6 +322,60 @@ def check_reeval(case):
     return {"nontrivial": True, "classes": [what, op], "sample": {"module": src, "log": [str(x) for x in log]}}
 
 
+# ------------------------------------------------------------------------------ inner call sites
+
+
+@st.composite
+def _inner_case(draw, tier):
+    n = draw(st.sampled_from([2, 3]))
+    script = [draw(st.integers(0, n - 1)) for _ in range(draw(st.sampled_from([2, 3, 4, 6])))]
+    return {"n": n, "script": script, "shape": draw(st.sampled_from(["list", "dict", "call"])),
+            "prev": draw(st.sampled_from(["empty", "wrong", "right"]))}
+
+
+def check_inner(case):
+    """conditional inner snapshots (docs/eq_snapshot.md): n textual inner snapshot() calls inside one outer
+    snapshot that is evaluated in a loop; every inner call must end up with the value of its own branch"""
+    n = case["n"]
+    val = lambda b: 100 * (b + 1)
+    inner = {"empty": lambda b: "snapshot()", "wrong": lambda b: f"snapshot({val(b) + 1})",
+             "right": lambda b: f"snapshot({val(b)})"}[case["prev"]]
+    expr = inner(n - 1)
+    for b in range(n - 2, -1, -1):
+        expr = f"{inner(b)} if c == {b} else ({expr})"
+    wrap = {"list": "[%s, 1]", "dict": "{'k': %s, 'j': 1}", "call": "Point(x=%s, y=1)"}[case["shape"]]
+    obs = {"list": "[x, 1]", "dict": "{'k': x, 'j': 1}", "call": "Point(x=x, y=1)"}[case["shape"]]
+    src = ("from inline_snapshot import snapshot\nfrom vf_prelude import *\n\n\ndef test_a():\n"
+           f"    for c in {case['script']!r}:\n        x = 100 * (c + 1)\n"
+           f"        assert {obs} == snapshot({wrap % ('(' + expr + ')')})\n")
+    ses = drivers.run_inline({"test_a.py": src}, {"create", "fix"})
+    if not ses.ok():
+        err = ses.exec_error or ses.collect_error or ses.apply_error
+        raise Violation(f"session-exception:{type(err).__name__}", f"{type(err).__name__}: {err}\n{src}")
+    exc = ses.test_results.get("test_a.py::test_a")
+    if exc is not None:
+        raise Violation(f"test-raised:{type(exc).__name__}", f"{type(exc).__name__}: {exc}\n{src}")
+    after = ses.files_after["test_a.py"].decode()
+    calls = [c for c in oracles.all_snapshot_calls(ast.parse(after)) if c not in oracles.snapshot_calls(ast.parse(after))]
+    tree = ast.parse(after)
+    outer = oracles.snapshot_calls(tree)
+    inner_calls = [c for c in oracles.all_snapshot_calls(tree) if all(c is not o for o in outer)]
+    if len(inner_calls) != n:
+        raise Violation("inner-site-count", f"{len(inner_calls)} inner sites after, {n} before\n{after}")
+    used = set(case["script"])
+    for b, c in enumerate(inner_calls):
+        got = ast.literal_eval(c.args[0]) if c.args else None
+        if b in used:
+            if got != val(b):
+                raise Violation("inner-site-value", f"inner site {b} holds {got!r}, its own branch observed {val(b)}\n--- before\n{src}\n--- after\n{after}")
+        else:
+            want = {"empty": None, "wrong": val(b) + 1, "right": val(b)}[case["prev"]]
+            if got != want:
+                raise Violation("inner-site-leak", f"inner site {b} was never reached but changed to {got!r}\n--- before\n{src}\n--- after\n{after}")
+    switched = any(a != b for a, b in zip(case["script"], case["script"][1:]))
+    return {"nontrivial": switched, "classes": ["inner", case["shape"], case["prev"]], "sample": {"before": src, "after": after}}
+
+
 # ------------------------------------------------------------------------------ pytest arm
 
 
@@ -375,6 +431,7 @@ def check_pytest(case):
 
 ARMS = [
     HypArm("interleave", lambda tier: _case(tier), check_interleave, budget={"quick": 1200, "thorough": 80000}),
+    HypArm("inner_sites", _inner_case, check_inner, budget={"quick": 200, "thorough": 5000}),
     HypArm("reeval", lambda tier: _reeval_case(tier), check_reeval, budget={"quick": 400, "thorough": 4000}),
     HypArm("pytest", lambda tier: _pytest_case(tier), check_pytest, budget={"quick": 32, "thorough": 400},
            shrink=False),
